@@ -602,3 +602,34 @@ Definition crash_check (c : crash_case) : bool :=
   | VCase types s n answers =>
     recover_answers types (mkU true (Some (encode s)) (Some []) (Some []) (Some (repeat 0 (N.to_nat n)))) answers
   end.
+
+(* ---------- the whole data directory ----------
+   Workceptor.scanForUnits (every RegisterWorker runs it): os.ReadDir, then scanForUnit for every
+   entry, each on its own — what one entry is or holds, and whether looking at it ended in an
+   error, has no bearing on the next.  An entry is a directory (a unit: [ufiles], which covers the
+   empty directory, the directory without status file and the status file that is no record) or
+   something else (a stray regular file: "Error locating unit", nothing done).  Names are
+   numbers here, as units are everywhere in this file; the list is in directory order. *)
+Inductive dentry := DUnit (x : ufiles) | DStray.
+
+Definition scan_entry (types : list bytes) (e : dentry) : dentry * view :=
+  match e with
+  | DUnit x => let '(x', v) := recover types x in (DUnit x', v)
+  | DStray => (DStray, no_view)
+  end.
+
+Definition scan_dir (types : list bytes) (d : list (N * dentry)) : list (N * (dentry * view)) :=
+  map (fun ne => (fst ne, scan_entry types (snd ne))) d.
+
+Definition dlookup {A} (n : N) (d : list (N * A)) : option A :=
+  match find (fun ne => fst ne =? n) d with Some ne => Some (snd ne) | None => None end.
+
+(* a scan that gives up at the first entry it counts as a failure ([fails]: any criterion): kept
+   only to be refuted (Proofs/Crash.v scan_stop_refuted) *)
+Fixpoint scan_stop (fails : dentry -> bool) (types : list bytes) (d : list (N * dentry))
+  : list (N * (dentry * view)) :=
+  match d with
+  | [] => []
+  | (n, e) :: r =>
+    if fails e then [(n, scan_entry types e)] else (n, scan_entry types e) :: scan_stop fails types r
+  end.
